@@ -60,6 +60,15 @@ CHECKS["C09"] = dict(
     note=NOTE_COMMON + "Two known findings (fragments whose first command is not a moveto), see known_findings.json. Outside: longer strings outside the template "
          "families, wall-clock promptness, IEEE underflow of arc radii; post-parse operations are checked on one witness per path, not for all values.")
 
+CHECKS["C16"] = dict(
+    text="Real Path.reverse / Subpath.reverse on paths parsed from skeleton data with symbolic coordinates and arc sweeps: for a structured family of <=3 subpaths "
+         "(open/closed, zero and non-zero closes, subpaths without their own move, move-only and single-segment subpaths) and every 2-command sequence, the drawn "
+         "segments of the result are proved equal to the abstract reversal (order, swapped controls, negated sweep), connected, closed-stays-closed; reverse twice "
+         "restores; each subpath view reversed alone changes only that subpath; reverse commutes with a symbolic matrix (whole path and views).",
+    ref="DESIGN.md 4/C16",
+    note=NOTE_COMMON + "Arc._svg_parameterize replaced by a recorder with symbolic sweep. Two known findings (views of closed subpaths without their own move; double closepath). "
+         "Outside: arc point(t) symmetry, fragments whose first segment has no start point.")
+
 NOT_APPLICABLE = {
 }
 
